@@ -15,6 +15,8 @@ T = {
             "small-scope hypothesis (expression depth <= 2-3, input length <= 3-4); PegDenot is the reading of doc/syntax.md; rustc and the harness's Debug reader are trusted", "4 C01"),
     "C02": (MC, "TLC (TreeExact, CountSound) + replay into real parsers, trees compared through derive(Debug)",
             "The machine's frame discipline (what each failing construct discards) is checked by TLC against the reference semantics for every field-plumbing shape; the same cases run on the real generated parsers and the canonical trees are compared.", "Debug rendering is the observation channel; bounded shapes and inputs", "4 C02"),
+    "C03": (MC, "TLC evaluation of TypeShapes (type table from the documented mapping; ArityMapping: implemented lattice = documented counts) + rustc on exact-type assertions against the real generated code",
+            "TLC settles, for every expression of the enumerated family and without executing anything, that the implemented arity combination computes the documented plain / Option / Vec mapping, and prints the expected public types; the generator turns them into exact-type assertions (PhantomData<T> equality, exhaustive destructuring, wildcard-free match) that rustc checks against the code the real generator emits, under forbid(unsafe_code).", "rustc decides 'compiles'; TLC supplies enumeration and expectations; four field names colliding with template locals are known findings", "4 C03"),
     "C04": (MC, "TLC OnBoundary invariant on byte-level terminals + BoundaryMonitor trace validation of recorded advances (hooks H1/H2)",
             "Byte-level terminal definitions (ASCII fast paths included) are model-checked to keep the cursor on character boundaries over alphabets built to split sequences; every real cursor advance, failure offset, range and string is recorded and validated by TLC against BoundaryMonitor; H1 turns a violated unsafe precondition into a panic.", "memory safety proper is outside this technique; decided is the stated precondition discipline", "4 C04"),
     "C05": (MC, "TLC MemoInvisible/FreshCache over all memo subsets + real variant-vs-variant comparison + CacheMonitor trace validation",
